@@ -81,6 +81,8 @@ type finding struct {
 	Signature string `json:"signature,omitempty"`
 	// Signatures lists further symptoms of the same root cause.
 	Signatures []string `json:"signatures,omitempty"`
+	// SignaturePrefixes covers a family of symptoms of one root cause.
+	SignaturePrefixes []string `json:"signature_prefixes,omitempty"`
 	What      string `json:"what"`
 	Commit    string `json:"commit,omitempty"`
 	Line      string `json:"line,omitempty"`
@@ -278,6 +280,18 @@ func main() {
 	var fresh []rt.Violation
 	freshBySig := map[string]int{}
 	for _, v := range merged.Violations {
+		if _, ok := open[v.Signature]; !ok {
+			for _, f := range ff.Findings {
+				if f.Property != id || f.Status != "open" {
+					continue
+				}
+				for _, pfx := range f.SignaturePrefixes {
+					if strings.HasPrefix(v.Signature, pfx) {
+						open[v.Signature] = f
+					}
+				}
+			}
+		}
 		if _, ok := open[v.Signature]; ok {
 			knownSeen[v.Signature]++
 			continue
